@@ -155,7 +155,8 @@ impl VisitMut for OperationTransformVisitor<'_> {
                 );
                 if transform_result.is_modified() {
                     expr.map_with_mut(|e| transform_result.expr.unwrap_or(e));
-                    opv_with_child_ctx.update_status(transform_result.status, transform_result.tag);
+                    // lowering the optional chain only prepares the expression: the status and the
+                    // metrics are updated when (and if) the method call inside it gets its hook
                 }
 
                 expr.visit_mut_children_with(opv_with_child_ctx);
